@@ -1,5 +1,8 @@
 import Rbdl.Utils
 import Rbdl.Alg.QuatFrom
+import Rbdl.GenUse
+import Rbdl.Gen.Spatial
+import Rbdl.Gen.Quat
 /-
   `alg <op> args` of the line protocol: header-level operations on explicit arguments (C16).
 -/
@@ -61,8 +64,8 @@ def gaussElimPivot (n : Nat) (A0 : Nat → Nat → Q) (b0 : Nat → Q) : List Q 
 
 def run (op : String) (a : List Q) : String :=
   match op with
-  | "apply" => showL (SV.toList ((xt a 0).apply (sv a 12)))
-  | "applyTranspose" => showL (SV.toList ((xt a 0).applyTranspose (sv a 12)))
+  | "apply" => showL (SV.toList (Gen.xtApply (xt a 0) (sv a 12)))
+  | "applyTranspose" => showL (SV.toList (Gen.xtApplyTranspose (xt a 0) (sv a 12)))
   | "applyAdjoint" => showL (SV.toList ((xt a 0).applyAdjoint (sv a 12)))
   | "inverse" => showL (xtL (xt a 0).inverse)
   | "mul" | "mulAssign" => showL (xtL (xt a 0 * xt a 12))
@@ -76,20 +79,20 @@ def run (op : String) (a : List Q) : String :=
   | "rbiFromMassComInertiaC" => showL (rbiL (RBI.ofMassComInertiaC (a.getD 0 0) (v3 a 1) (m3 a 4)))
   | "applyRBI" => showL (rbiL ((xt a 0).applyRBI (rbi a 12)))
   | "applyTransposeRBI" => showL (rbiL ((xt a 0).applyTransposeRBI (rbi a 12)))
-  | "crossm" => showL (SV.toList (crossm (sv a 0) (sv a 6)))
-  | "crossf" => showL (SV.toList (crossf (sv a 0) (sv a 6)))
-  | "crossmMat" => showL (smL (crossmMat (sv a 0)))
-  | "crossfMat" => showL (smL (crossfMat (sv a 0)))
-  | "Xrot" => showL (xtL (Xrot (a.getD 1 0) (a.getD 2 0) (v3 a 3)))
-  | "Xrotx" => showL (xtL (Xrotx (a.getD 1 0) (a.getD 2 0)))
-  | "Xroty" => showL (xtL (Xroty (a.getD 1 0) (a.getD 2 0)))
-  | "Xrotz" => showL (xtL (Xrotz (a.getD 1 0) (a.getD 2 0)))
+  | "crossm" => showL (SV.toList (Gen.crossmVV (sv a 0) (sv a 6)))
+  | "crossf" => showL (SV.toList (Gen.crossfVV (sv a 0) (sv a 6)))
+  | "crossmMat" => showL (smL (Gen.crossmM (sv a 0)))
+  | "crossfMat" => showL (smL (Gen.crossfM (sv a 0)))
+  | "Xrot" => showL (xtL ⟨Gen.xrotE (a.getD 1 0) (a.getD 2 0) (v3 a 3), V3.zero⟩)
+  | "Xrotx" => showL (xtL ⟨Gen.xrotxE (a.getD 1 0) (a.getD 2 0), V3.zero⟩)
+  | "Xroty" => showL (xtL ⟨Gen.xrotyE (a.getD 1 0) (a.getD 2 0), V3.zero⟩)
+  | "Xrotz" => showL (xtL ⟨Gen.xrotzE (a.getD 1 0) (a.getD 2 0), V3.zero⟩)
   | "Xtrans" => showL (xtL (Xtrans (v3 a 0)))
-  | "skew" => showL (m3L (M3.skew (v3 a 0)))
+  | "skew" => showL (m3L (Gen.skew (v3 a 0)))
   | "parallelAxis" => showL (m3L (Body.parallelAxis (m3 a 0) (a.getD 9 0) (v3 a 10)))
-  | "qmul" => showL (quatL (Quat.mul (quat a 0) (quat a 4)))
-  | "qconj" => showL (quatL (quat a 0).conjugate)
-  | "qtoMatrix" => showL (m3L (quat a 0).toMatrix)
+  | "qmul" => showL (quatL (Gen.quatMul (quat a 0) (quat a 4)))
+  | "qconj" => showL (quatL (Gen.quatConj (quat a 0)))
+  | "qtoMatrix" => showL (m3L (Gen.quatToMatrix (quat a 0)))
   | "qrotate" => showL (V3.toList ((quat a 0).rotate (v3 a 4)))
   | "qomegaToQDot" => showL (quatL ((quat a 0).omegaToQDot (v3 a 4)))
   | "qfromMatrix" => showL (quatL (Quat.fromMatrix ratSqrt (m3 a 0)))
@@ -100,5 +103,22 @@ def run (op : String) (a : List Q) : String :=
     let n := (a.getD 0 0).num.toNat
     showL (gaussElimPivot n (fun r c => a.getD (1 + r * n + c) 0) (fun r => a.getD (1 + n * n + r) 0))
   | _ => "bad-alg"
+
+/-- the defining 6x6-matrix (or matrix-action) form of the compact operators: specification side -/
+def spec (op : String) (a : List Q) : Option String :=
+  match op with
+  | "apply" => some (showL (SV.toList ((xt a 0).toMatrix * sv a 12)))
+  | "applyTranspose" => some (showL (SV.toList ((xt a 0).toMatrix.transpose * sv a 12)))
+  | "applyAdjoint" => some (showL (SV.toList ((xt a 0).inverse.toMatrix.transpose * sv a 12)))
+  | "rbiMul" => some (showL (SV.toList ((rbi a 0).toMatrix * sv a 10)))
+  | "applyTransposeRBI" =>
+    some (showL (rbiL (RBI.ofMatrix ((xt a 0).toMatrix.transpose * (rbi a 12).toMatrix * (xt a 0).toMatrix))))
+  | "applyRBI" =>
+    some (showL (rbiL (RBI.ofMatrix ((xt a 0).inverse.toMatrix.transpose * (rbi a 12).toMatrix * (xt a 0).inverse.toMatrix))))
+  | "crossm" => some (showL (SV.toList (crossmMat (sv a 0) * sv a 6)))
+  | "crossf" => some (showL (SV.toList (SM.tmulVec (crossmMat (sv a 0)) (-(sv a 6)))))
+  | "qrotate" => some (showL (V3.toList ((quat a 0).toMatrix * v3 a 4)))
+  | "qmul" => none
+  | _ => none
 
 end AlgDriver
